@@ -323,3 +323,44 @@ Example C07_dropna_exact_nonvacuous :
   let l := [(0, true); (500, true); (600, false); (2000, true); (4000, false)] in
   strictly_increasing (map fst l) /\ lone_ok false l /\ ~ spaced (map fst l) /\ dropna_support l = [(0, 500); (2000, 3000)].
 Proof. cbv zeta. split; [simpl; lia|]. split; [simpl; unfold us; intuition lia|]. split; [simpl; unfold us; lia|vm_compute; reflexivity]. Qed.
+
+(* ====================================================================================================
+   10. complementary thresholds (above / belowequal, below / aboveequal: the masks are each other's negation):
+       every sample lies in exactly one of the two new supports - the two results split the series. *)
+Definition flip (l : list (Z * bool)) : list (Z * bool) := map (fun p => (fst p, negb (snd p))) l.
+
+Lemma flip_fst l : map fst (flip l) = map fst l.
+Proof. unfold flip. rewrite map_map. apply map_ext. intros [x b]; reflexivity. Qed.
+
+Lemma H_flip ep l : H ep l -> H ep (flip l).
+Proof. unfold H. rewrite flip_fst. tauto. Qed.
+
+Lemma in_kept_times x l : In (x, true) l -> In x (kept_times l).
+Proof. intros Hin. unfold kept_times. apply in_map_iff. exists (x, true). split; [reflexivity|]. apply filter_In. split; [exact Hin|reflexivity]. Qed.
+
+Lemma complementary_split ep l : H ep l ->
+  Forall (fun p => mem (2 * fst p) (threshold_support ep l) = snd p
+                   /\ mem (2 * fst p) (threshold_support ep (flip l)) = negb (snd p)) l.
+Proof.
+  intros Hl. pose proof (H_flip ep l Hl) as Hf.
+  pose proof (C07_contains_kept ep l Hl) as K1. pose proof (C07_excludes_rejected ep l Hl) as R1.
+  pose proof (C07_contains_kept ep (flip l) Hf) as K2. pose proof (C07_excludes_rejected ep (flip l) Hf) as R2.
+  rewrite Forall_forall in K1, R1, K2, R2. apply Forall_forall. intros [x b] Hin. cbn [fst snd].
+  assert (Hinf : In (x, negb b) (flip l)).
+  { unfold flip. apply in_map_iff. exists (x, b). split; [reflexivity|exact Hin]. }
+  destruct b; cbn [negb] in *.
+  - split; [apply K1; apply in_kept_times; exact Hin|apply (R2 (x, false) Hinf); reflexivity].
+  - split; [apply (R1 (x, false) Hin); reflexivity|apply K2; apply in_kept_times; exact Hinf].
+Qed.
+
+Theorem C07_complementary_split : forall ep l, H ep l ->
+  Forall (fun p => mem (2 * fst p) (threshold_support ep l) = snd p
+                   /\ mem (2 * fst p) (threshold_support ep (flip l)) = negb (snd p)) l.
+Proof. exact complementary_split. Qed.
+Print Assumptions C07_complementary_split.
+
+Example C07_complementary_nonvacuous :
+  H [(0, 100)] [(10, true); (20, false); (30, true)]
+  /\ threshold_support [(0, 100)] [(10, true); (20, false); (30, true)] = [(20, 30); (50, 60)]
+  /\ threshold_support [(0, 100)] (flip [(10, true); (20, false); (30, true)]) = [(30, 50)].
+Proof. split; [|vm_compute; split; reflexivity]. unfold H. split; [simpl; lia|]. split; [simpl; lia|]. repeat constructor. Qed.
